@@ -498,6 +498,46 @@ func (tb *Table) Bin(k Kind, a, b *T) *T {
 			}
 		}
 	}
+	// narrow multiplications and divisions of extended operands (keeps bit-blasting small)
+	switch k {
+	case KMul, KSDiv, KSRem:
+		if ai, ab, ok := narrowS(a); ok {
+			if bi, bb, ok2 := narrowS(b); ok2 {
+				nw := ab + bb
+				if k != KMul {
+					nw = ab
+					if bb > nw {
+						nw = bb
+					}
+					nw++
+				}
+				if nw < w {
+					x := tb.resizeInner(ai, nw, true)
+					y := tb.resizeInner(bi, nw, true)
+					return tb.SExt(tb.Bin(k, x, y), w)
+				}
+			}
+		}
+	}
+	switch k {
+	case KMul, KUDiv, KURem:
+		if ai, ab, ok := narrowU(a); ok {
+			if bi, bb, ok2 := narrowU(b); ok2 {
+				nw := ab + bb
+				if k != KMul {
+					nw = ab
+					if bb > nw {
+						nw = bb
+					}
+				}
+				if nw < w {
+					x := tb.resizeInner(ai, nw, false)
+					y := tb.resizeInner(bi, nw, false)
+					return tb.ZExt(tb.Bin(k, x, y), w)
+				}
+			}
+		}
+	}
 	if a == b {
 		switch k {
 		case KSub, KBvXor:
@@ -507,6 +547,55 @@ func (tb *Table) Bin(k Kind, a, b *T) *T {
 		}
 	}
 	return tb.mk(k, w, 0, "", []*T{a, b}, 0, 0)
+}
+
+// narrowS: t is the sign extension of an inner value of `bits` bits (or a constant fitting in them).
+func narrowS(t *T) (*T, int, bool) {
+	switch t.Kind {
+	case KSExt:
+		return t.Args[0], t.Args[0].W, true
+	case KZExt:
+		return t, t.Args[0].W + 1, t.Args[0].W+1 < t.W
+	case KConst:
+		v := sext64(t.Val, t.W)
+		for b := 2; b < t.W; b++ {
+			if v >= -(int64(1)<<uint(b-1)) && v < int64(1)<<uint(b-1) {
+				return t, b, true
+			}
+		}
+	}
+	return nil, 0, false
+}
+
+func narrowU(t *T) (*T, int, bool) {
+	switch t.Kind {
+	case KZExt:
+		return t.Args[0], t.Args[0].W, true
+	case KConst:
+		for b := 1; b < t.W; b++ {
+			if t.Val < uint64(1)<<uint(b) {
+				return t, b, true
+			}
+		}
+	}
+	return nil, 0, false
+}
+
+// resizeInner converts the inner value of a narrowable term to width nw.
+func (tb *Table) resizeInner(t *T, nw int, signed bool) *T {
+	if t.Kind == KConst {
+		return tb.Const(nw, t.Val)
+	}
+	if t.W == nw {
+		return t
+	}
+	if t.W > nw {
+		return tb.Extract(t, nw-1, 0)
+	}
+	if signed {
+		return tb.SExt(t, nw)
+	}
+	return tb.ZExt(t, nw)
 }
 
 // Cmp builds a comparison (KUlt, KUle, KSlt, KSle).
